@@ -657,9 +657,17 @@ namespace awkward {
     if (identities_.get() != nullptr) {
       identities = identities_.get()->getitem_carry_64(carry);
     }
-    return std::make_shared<UnmaskedArray>(identities,
-                                           parameters_,
-                                           content_.get()->carry(carry, allow_lazy));
+    UnmaskedArray out(identities,
+                      parameters_,
+                      content_.get()->carry(carry, allow_lazy));
+    if (dynamic_cast<IndexedArray64*>(out.content().get())) {
+      // a lazy carry wrapped the content in an IndexedArray
+      ContentPtr step1 = out.toIndexedOptionArray64();
+      IndexedOptionArray64* step2 =
+        dynamic_cast<IndexedOptionArray64*>(step1.get());
+      return step2->simplify_optiontype();
+    }
+    return out.shallow_copy();
   }
 
   int64_t
